@@ -17,7 +17,7 @@ pub use merge::ChunkMerger;
 pub use pins::ChunkPinRegistry;
 
 use crate::clock::BoundedClock;
-use crate::ingester::ParquetWriter;
+use crate::ingester::{ChunkMetadata, ParquetWriter};
 use crate::metadata::{CompactionJob, CompactionStatus, MetadataClient, TimeRange};
 use crate::sharding::{ShardAction, ShardMonitor, ShardSplitter};
 use crate::{Error, Result, StorageConfig};
@@ -618,52 +618,55 @@ impl Compactor {
                 status: CompactionStatus::InProgress,
                 created_at: Some(chrono::Utc::now().timestamp()),
             };
-            self.metadata.create_compaction_job(job.clone()).await?;
+            // Everything that can fail runs inside this block, so that the lease renewal task
+            // and the active-compaction counter are always cleaned up afterwards.
+            let outcome: Result<()> = async {
+                self.metadata.create_compaction_job(job.clone()).await?;
 
-            // Merge chunks
-            match self.merge_chunks(&group, Level::L0).await {
-                Ok(target_path) => {
-                    self.metadata
-                        .complete_compaction(&group, &target_path)
-                        .await?;
-                    self.metadata
-                        .update_compaction_status(&job.id, CompactionStatus::Completed)
-                        .await?;
-                    self.metadata.complete_lease(&lease.lease_id).await?;
+                // Merge chunks, then publish the merged chunk and drop the sources in one step
+                match self.merge_and_publish(&group, Level::L0).await {
+                    Ok(target_path) => {
+                        self.metadata
+                            .update_compaction_status(&job.id, CompactionStatus::Completed)
+                            .await?;
+                        self.metadata.complete_lease(&lease.lease_id).await?;
 
-                    // Schedule source chunks for deletion
-                    for path in &group {
-                        self.schedule_deletion(path);
+                        // Schedule source chunks for deletion
+                        for path in &group {
+                            self.schedule_deletion(path);
+                        }
+
+                        info!(target = %target_path, "L0 compaction completed");
+                        counter!(
+                            "cardinalsin_compaction_jobs_total",
+                            "service" => crate::telemetry::service(),
+                            "run_id" => crate::telemetry::run_id(),
+                            "tenant" => crate::telemetry::tenant(),
+                            "level" => "0",
+                            "result" => "ok"
+                        )
+                        .increment(1);
                     }
-
-                    info!(target = %target_path, "L0 compaction completed");
-                    counter!(
-                        "cardinalsin_compaction_jobs_total",
-                        "service" => crate::telemetry::service(),
-                        "run_id" => crate::telemetry::run_id(),
-                        "tenant" => crate::telemetry::tenant(),
-                        "level" => "0",
-                        "result" => "ok"
-                    )
-                    .increment(1);
+                    Err(e) => {
+                        self.metadata
+                            .update_compaction_status(&job.id, CompactionStatus::Failed)
+                            .await?;
+                        self.metadata.fail_lease(&lease.lease_id).await?;
+                        error!("L0 compaction failed: {}", e);
+                        counter!(
+                            "cardinalsin_compaction_jobs_total",
+                            "service" => crate::telemetry::service(),
+                            "run_id" => crate::telemetry::run_id(),
+                            "tenant" => crate::telemetry::tenant(),
+                            "level" => "0",
+                            "result" => "error"
+                        )
+                        .increment(1);
+                    }
                 }
-                Err(e) => {
-                    self.metadata
-                        .update_compaction_status(&job.id, CompactionStatus::Failed)
-                        .await?;
-                    self.metadata.fail_lease(&lease.lease_id).await?;
-                    error!("L0 compaction failed: {}", e);
-                    counter!(
-                        "cardinalsin_compaction_jobs_total",
-                        "service" => crate::telemetry::service(),
-                        "run_id" => crate::telemetry::run_id(),
-                        "tenant" => crate::telemetry::tenant(),
-                        "level" => "0",
-                        "result" => "error"
-                    )
-                    .increment(1);
-                }
+                Ok(())
             }
+            .await;
 
             renewal_handle.abort();
             // Track compaction completion
@@ -675,6 +678,7 @@ impl Compactor {
                 "tenant" => crate::telemetry::tenant()
             )
             .set(active as f64);
+            outcome?;
         }
 
         Ok(())
@@ -746,52 +750,54 @@ impl Compactor {
                 status: CompactionStatus::InProgress,
                 created_at: Some(chrono::Utc::now().timestamp()),
             };
-            self.metadata.create_compaction_job(job.clone()).await?;
             let level_label = level.to_string();
+            // See compact_l0: clean-up below must run whatever happens in here
+            let outcome: Result<()> = async {
+                self.metadata.create_compaction_job(job.clone()).await?;
 
-            match self.merge_chunks(&group, Level::L(level)).await {
-                Ok(target_path) => {
-                    self.metadata
-                        .complete_compaction(&group, &target_path)
-                        .await?;
-                    self.metadata
-                        .update_compaction_status(&job.id, CompactionStatus::Completed)
-                        .await?;
-                    self.metadata.complete_lease(&lease.lease_id).await?;
+                match self.merge_and_publish(&group, Level::L(level)).await {
+                    Ok(target_path) => {
+                        self.metadata
+                            .update_compaction_status(&job.id, CompactionStatus::Completed)
+                            .await?;
+                        self.metadata.complete_lease(&lease.lease_id).await?;
 
-                    // Schedule source chunks for deletion
-                    for path in &group {
-                        self.schedule_deletion(path);
+                        // Schedule source chunks for deletion
+                        for path in &group {
+                            self.schedule_deletion(path);
+                        }
+
+                        info!(level = level, target = %target_path, "Level compaction completed");
+                        counter!(
+                            "cardinalsin_compaction_jobs_total",
+                            "service" => crate::telemetry::service(),
+                            "run_id" => crate::telemetry::run_id(),
+                            "tenant" => crate::telemetry::tenant(),
+                            "level" => level_label.clone(),
+                            "result" => "ok"
+                        )
+                        .increment(1);
                     }
-
-                    info!(level = level, target = %target_path, "Level compaction completed");
-                    counter!(
-                        "cardinalsin_compaction_jobs_total",
-                        "service" => crate::telemetry::service(),
-                        "run_id" => crate::telemetry::run_id(),
-                        "tenant" => crate::telemetry::tenant(),
-                        "level" => level_label.clone(),
-                        "result" => "ok"
-                    )
-                    .increment(1);
+                    Err(e) => {
+                        self.metadata
+                            .update_compaction_status(&job.id, CompactionStatus::Failed)
+                            .await?;
+                        self.metadata.fail_lease(&lease.lease_id).await?;
+                        error!(level = level, "Level compaction failed: {}", e);
+                        counter!(
+                            "cardinalsin_compaction_jobs_total",
+                            "service" => crate::telemetry::service(),
+                            "run_id" => crate::telemetry::run_id(),
+                            "tenant" => crate::telemetry::tenant(),
+                            "level" => level_label.clone(),
+                            "result" => "error"
+                        )
+                        .increment(1);
+                    }
                 }
-                Err(e) => {
-                    self.metadata
-                        .update_compaction_status(&job.id, CompactionStatus::Failed)
-                        .await?;
-                    self.metadata.fail_lease(&lease.lease_id).await?;
-                    error!(level = level, "Level compaction failed: {}", e);
-                    counter!(
-                        "cardinalsin_compaction_jobs_total",
-                        "service" => crate::telemetry::service(),
-                        "run_id" => crate::telemetry::run_id(),
-                        "tenant" => crate::telemetry::tenant(),
-                        "level" => level_label.clone(),
-                        "result" => "error"
-                    )
-                    .increment(1);
-                }
+                Ok(())
             }
+            .await;
 
             renewal_handle.abort();
             // Track compaction completion
@@ -803,13 +809,21 @@ impl Compactor {
                 "tenant" => crate::telemetry::tenant()
             )
             .set(active as f64);
+            outcome?;
         }
 
         Ok(())
     }
 
+    /// Merge a group of chunks, then publish the merged chunk in place of its sources
+    async fn merge_and_publish(&self, paths: &[String], level: Level) -> Result<String> {
+        let target = self.merge_chunks(paths, level).await?;
+        self.metadata.publish_compaction(paths, &target).await?;
+        Ok(target.path)
+    }
+
     /// Merge a group of chunks into one
-    async fn merge_chunks(&self, paths: &[String], level: Level) -> Result<String> {
+    async fn merge_chunks(&self, paths: &[String], level: Level) -> Result<ChunkMetadata> {
         // Read and merge chunks
         let merged_batch = self.merger.merge(paths).await?;
 
@@ -818,16 +832,53 @@ impl Compactor {
 
         // Write merged Parquet
         let parquet_bytes = self.parquet_writer.write_batch(&sorted)?;
+        let parquet_size = parquet_bytes.len() as u64;
 
         // Generate target path
         let target_path = self.generate_compacted_path(level);
 
+        // Catalog entry of the merged chunk (sorted by timestamp: first / last row bound it)
+        let (min_timestamp, max_timestamp) = Self::timestamp_bounds(&sorted)?;
+        let target = ChunkMetadata {
+            path: target_path.clone(),
+            min_timestamp,
+            max_timestamp,
+            row_count: sorted.num_rows() as u64,
+            size_bytes: parquet_size,
+        };
+
         // Upload to object storage
         self.object_store
-            .put(&target_path.clone().into(), parquet_bytes.into())
+            .put(&target_path.into(), parquet_bytes.into())
             .await?;
 
-        Ok(target_path)
+        Ok(target)
+    }
+
+    /// Minimum and maximum of a batch's timestamp column
+    fn timestamp_bounds(batch: &arrow_array::RecordBatch) -> Result<(i64, i64)> {
+        use arrow_array::cast::AsArray;
+        use arrow_array::types::{Int64Type, TimestampNanosecondType};
+
+        let col = batch
+            .column_by_name("timestamp")
+            .ok_or_else(|| Error::InvalidSchema("Missing timestamp column".into()))?;
+        if let Some(ts) = col.as_primitive_opt::<TimestampNanosecondType>() {
+            return Ok((
+                arrow::compute::min(ts).unwrap_or(0),
+                arrow::compute::max(ts).unwrap_or(0),
+            ));
+        }
+        if let Some(ts) = col.as_primitive_opt::<Int64Type>() {
+            return Ok((
+                arrow::compute::min(ts).unwrap_or(0),
+                arrow::compute::max(ts).unwrap_or(0),
+            ));
+        }
+        Err(Error::InvalidSchema(format!(
+            "Timestamp column must be Timestamp(Nanosecond) or Int64, got {:?}",
+            col.data_type()
+        )))
     }
 
     /// Garbage collect old chunks with grace period
